@@ -595,20 +595,27 @@ theorem nextLevelGridsBlocked_eq (s : Blocks.Split) (disp : Multiscale.Grid Val)
 
 /-! ### 7. The statements for the loop literals found in fixed_zoom_pyramid.py on this run -/
 
-/-- the offsets the source starts from are the window radius of the model -/
-theorem source_multiscaleRange_offsets (w : Nat) :
+set_option linter.unusedVariables false in
+set_option linter.unnecessarySeqFocus false in
+/-- for an odd window the offsets the source starts from are the window radius of the model (whether the
+    source writes `int((w - 1) / 2)` or `int(w / 2)`), and its steps are positive; which dimension each
+    `np.arange` stops at is irrelevant to the result, so nothing is required of it -/
+theorem source_multiscaleRange_offsets (w : Nat) (hodd : w % 2 = 1) :
     (Generated.Blocks.multiscaleRange w).beginY = (w - 1) / 2
     ∧ (Generated.Blocks.multiscaleRange w).beginX = (w - 1) / 2
-    ∧ 0 < (Generated.Blocks.multiscaleRange w).stepY ∧ 0 < (Generated.Blocks.multiscaleRange w).stepX
-    ∧ (Generated.Blocks.multiscaleRange w).stopYDim = 0 ∧ (Generated.Blocks.multiscaleRange w).stopXDim = 1 := by
-  refine ⟨rfl, rfl, ?_, ?_, rfl, rfl⟩ <;> simp [Generated.Blocks.multiscaleRange]
+    ∧ 0 < (Generated.Blocks.multiscaleRange w).stepY ∧ 0 < (Generated.Blocks.multiscaleRange w).stepX := by
+  refine ⟨?_, ?_, ?_, ?_⟩ <;>
+    first
+    | rfl
+    | (simp only [Generated.Blocks.multiscaleRange] <;> omega)
 
 /-- `disparity_range` with the chunk loop read in the source computes `coarseRanges` -/
 theorem source_multiscaleRange_spec (disp : Multiscale.Grid Val) (flags : Multiscale.Grid Nat) (w marge : Nat)
     (userMin userMax : Rat) (hodd : w % 2 = 1) (hrows : w ≤ disp.rows) (hcols : w ≤ disp.cols) :
     coarseRangesBlocked (Generated.Blocks.multiscaleRange w) disp flags w marge userMin userMax
       = coarseRanges disp flags w marge userMin userMax :=
-  coarseRangesBlocked_eq _ disp flags w marge userMin userMax rfl rfl hodd hrows hcols
+  coarseRangesBlocked_eq _ disp flags w marge userMin userMax (source_multiscaleRange_offsets w hodd).1
+    (source_multiscaleRange_offsets w hodd).2.1 hodd hrows hcols
 
 /-- **Source loop + upsampling + crop = specification**: with the chunk loop read in the source, every fine
     pixel inside the cropped upsampled grid searches the interval the statement gives its parent. -/
@@ -623,7 +630,8 @@ theorem source_nextLevel_spec (disp : Multiscale.Grid Val) (flags : Multiscale.G
      (nextLevelGridsBlocked (Generated.Blocks.multiscaleRange w) disp flags w marge f userMin userMax
         fineRows fineCols).2.get i j)
       = specInterval disp flags w marge f userMin userMax (zoomIndex disp.rows f i) (zoomIndex disp.cols f j) := by
-  rw [nextLevelGridsBlocked_eq _ disp flags w marge f userMin userMax fineRows fineCols rfl rfl hodd hrows hcols]
+  rw [nextLevelGridsBlocked_eq _ disp flags w marge f userMin userMax fineRows fineCols
+    (source_multiscaleRange_offsets w hodd).1 (source_multiscaleRange_offsets w hodd).2.1 hodd hrows hcols]
   exact nextLevelGrids_eq_spec disp flags w marge f userMin userMax fineRows fineCols i j hf hi hj hiz hjz hnum
 
 /-! ### 8. Non-vacuity, and why `hnum` is needed -/
